@@ -16,7 +16,7 @@ CLAIMED = {
    note="Trusted: token-stream normaliser (prompt and forced line breaks removed). CONT/RETURN/NEXT without an edit since the last stop are legitimate and not judged; cases whose listing is not a fixed point (C05) are discarded.",
    tech="deterministic simulation: seeded edit histories with interrupt-stopped runs, fresh-twin differential oracle"),
  "C12": dict(cat="exploration", ref="DESIGN.md section 5 C12",
-   text="Seeded search over session prefixes (programs run to completion / planted error / STOP / Ctrl-C at a seeded instruction, direct statements leaving variables, arrays, DEFtype, DATA position, FOR/GOSUB frames, pending INPUT, RND draws) followed by RUN of another program, RUN again, CLEAR + probe lines, or NEW + probe lines + LIST (25% with a get_listing() snapshot held across the reset); 5%: a program restarting itself with RUN from inside GOSUB / FOR / WHILE, compared from the restart on with RUN on a fresh runtime plus stray RETURN / NEXT / CONT probes; every line is compared with a fresh twin Runtime, entropy aligned.",
+   text="Seeded search over session prefixes (programs run to completion / planted error / STOP / Ctrl-C at a seeded instruction, direct statements leaving variables, arrays, DEFtype, DATA position, FOR/GOSUB frames, pending INPUT, RND draws) followed by RUN of another program, RUN again, CLEAR + probe lines, or NEW + probe lines + LIST (25% with a get_listing() snapshot held across the reset); 5%: a program restarting itself with RUN from inside GOSUB / FOR / WHILE, compared from the restart on with RUN on a fresh runtime plus stray RETURN / NEXT / CONT probes; 2%: a program executing NEW itself inside GOSUB / FOR, then probe lines compared with a runtime just started; every line is compared with a fresh twin Runtime, entropy aligned.",
    note="Trusted: token-stream normaliser; TRON is switched off at the end of the prefix because the manual lets tracing persist across RUN.",
    tech="deterministic simulation: seeded session prefixes with injected interrupts and failing statements, fresh-twin differential oracle"),
  "C15": dict(cat="exploration", ref="DESIGN.md section 5 C15",
@@ -32,7 +32,7 @@ CLAIMED = {
    note="Trusted: RefBASIC's store model. Within one evaluation a base name is spelled either always with or always without a type suffix (whether A and A! are one variable is not settled by the manual). Interrupts inside SWAP / MID$= are enumerated by C13, pool exhaustion by C18.",
    tech="deterministic simulation: seeded operation sequences with failing statements against a typed map reference model, read back after every step"),
  "C09": dict(cat="exploration", ref="DESIGN.md section 5 C09",
-   text="Seeded programs with DATA lines anywhere (also in never-executed IF branches), READ lists of every type, RESTORE / RESTORE n to arbitrary lines, and sessions mixing RUN, direct-mode READ/RESTORE, edits that insert/change/delete DATA lines, edits that leave the DATA alone (the position must survive them), CLEAR, STOP + READ + CONT, valid RENUM commands, DATA typed as a direct statement; members: READs followed by a run that dies of pool exhaustion and a direct READ; C13's interrupt + CONT enumeration over READ-heavy programs; every typed line is compared with RefBASIC's data-pointer model.",
+   text="Seeded programs with DATA lines anywhere (also in never-executed IF branches), READ lists of every type, RESTORE / RESTORE n to arbitrary lines, and sessions mixing RUN, direct-mode READ/RESTORE, edits that insert/change/delete DATA lines, edits that leave the DATA alone (the position must survive them), NEW + the program typed again + READ without RUN, DATA on line 65529 with RESTORE 65529 typed at the prompt, CLEAR, STOP + READ + CONT, valid RENUM commands, DATA typed as a direct statement; members: READs followed by a run that dies of pool exhaustion and a direct READ; C13's interrupt + CONT enumeration over READ-heavy programs; every typed line is compared with RefBASIC's data-pointer model.",
    note="Trusted: RefBASIC. The DATA position right after an edit is a grey zone (READ there discards the case).",
    tech="deterministic simulation: seeded programs and edit/run histories against RefBASIC's data-pointer model"),
  "C10": dict(cat="exploration", ref="DESIGN.md section 5 C10",
@@ -44,15 +44,15 @@ CLAIMED = {
    note="Trusted: the terminal model's cursor rule and RefBASIC's PRINT rules. The for-all-floats formatting clause is a pure function and is not claimed.",
    tech="deterministic simulation: terminal-cursor model vs VM column bookkeeping across Print/Input/Errors/List/trace/BREAK events, RefBASIC layout oracle"),
  "C17": dict(cat="exploration", ref="DESIGN.md section 5 C17",
-   text="Seeded programs over-sampling INPUT (prompt / no prompt / leading comma, 1-5 targets of every type, array targets subscripted by earlier targets, in loops, subroutines, IF branches and direct mode) answered by synthesised replies of clearly valid, clearly invalid and structurally wrong classes (incl. over-long ones, hex digits D and E, non-ASCII text) with up to two bad replies before an accepted one; targets whose type comes from DEFtype; 0.5%: C13's interrupt + CONT enumeration in every protocol state (with a direct INPUT or other inspection line before CONT, CONT typed behind a PRINT, Ctrl-C delivered twice); the request / REDO / request protocol, the caps flag and everything printed afterwards are compared with RefBASIC's reply model.",
+   text="Seeded programs over-sampling INPUT (prompt / no prompt / leading comma, 1-5 targets of every type, array targets subscripted by earlier targets, in loops, subroutines, IF branches and direct mode) answered by synthesised replies of clearly valid, clearly invalid and structurally wrong classes (incl. over-long ones, hex digits D and E, non-ASCII text, an odd number of quotes) with up to two bad replies before an accepted one; targets whose type comes from DEFtype; 0.5%: C13's interrupt + CONT enumeration in every protocol state (with a direct INPUT or other inspection line before CONT, CONT typed behind a PRINT, Ctrl-C delivered twice); the request / REDO / request protocol, the caps flag and everything printed afterwards are compared with RefBASIC's reply model.",
    note="Trusted: RefBASIC's reply grammar; grey-zone spellings are never generated. Interrupts in each protocol state are enumerated by C13.",
    tech="deterministic simulation: request/retry protocol between VM and simulated terminal with hostile replies, reference reply model"),
  "C20": dict(cat="exploration", ref="DESIGN.md section 5 C20",
-   text="Seeded twin comparison: (a) one generated program rendered under two layouts (monotone renumbering with seeded gaps, inserted REM / ':'-only lines, multi-statement lines split into consecutive lines, unreachable lines appended) is run on two real runtimes under different slice schedules and the transcripts and final variables must agree once reported line numbers are mapped back to the originating statement; (b) a direct statement list typed into a fresh runtime is compared with the same list typed with small / large / compile-error-carrying resident programs after other direct lines (failed, looping, syntactically wrong), and with the one-line program `10 <list>` + RUN; in 30% of the resident-program comparisons the list is interrupted after k instructions on both runtimes and the break reports must be the same text.",
+   text="Seeded twin comparison: (a) one generated program rendered under two layouts (monotone renumbering with seeded gaps, inserted REM / ':'-only lines, multi-statement lines split into consecutive lines, unreachable lines appended) is run on two real runtimes under different slice schedules and the transcripts and final variables must agree once reported line numbers are mapped back to the originating statement; (b) a direct statement list typed into a fresh runtime is compared with the same list typed with small / large / compile-error-carrying resident programs after other direct lines (failed, looping, syntactically wrong), and with the one-line program `10 <list>` + RUN; 8% of the resident-program comparisons end with a reference to line 65529 / 65528 (absolute oracle: one ?UNDEFINED LINE report); in 30% of the resident-program comparisons the list is interrupted after k instructions on both runtimes and the break reports must be the same text.",
    note="Trusted: the layout transformations preserve meaning (targets are AST indices, re-rendered); TRON excluded; DATA lines never moved; direct lists carry no line references and no READ.",
    tech="deterministic simulation: seeded layout configurations and resident-program / direct-line histories, twin-runtime differential oracle under different slice schedules"),
  "C14": dict(cat="exploration", ref="DESIGN.md section 5 C14",
-   text="RENUM as a transaction on the shared program store: a generated link-clean program (every referencing statement form incl. ON...GOSUB and, on unreachable lines, RUN n and LIST / DELETE in all range forms and bare; decoy numbers in PRINT, DATA, strings, remarks; non-ASCII text and octal / hex / exponent / typed numeric literals in front of references; line 0; lines up to 65529) is typed into the real runtime, a get_listing() snapshot is optionally held across, RENUM is typed in one of its eight argument forms with valid, overflowing, reordering, step-0 and out-of-range operands (also as a program statement, on a program with a dangling reference, and as the second RENUM in a row after a valid partial one). Verdict is the property's disjunction: (error reported and listing byte-identical) or (no error and listing equals the model renumbering of the generator's AST); on success the original program (fresh twin) and the renumbered one are run, entropy aligned, and transcripts and final variables must agree modulo the line map; a held snapshot must keep rendering the old text.",
+   text="RENUM as a transaction on the shared program store: a generated link-clean program (every referencing statement form incl. ON...GOSUB and, on unreachable lines, RUN n and LIST / DELETE in all range forms and bare; decoy numbers in PRINT, DATA, strings, remarks; non-ASCII text and octal / hex / exponent / typed numeric literals in front of references; line 0; lines up to 65529) is typed into the real runtime, a get_listing() snapshot is optionally held across, RENUM is typed in one of its eight argument forms with valid, overflowing, reordering, step-0 and out-of-range operands (also as a program statement, on a program with a dangling reference, as the second RENUM in a row after a valid partial one, and on programs that do not compile: unparsable line, dangling reference that must not become live). Verdict is the property's disjunction: (error reported and listing byte-identical) or (no error and listing equals the model renumbering of the generator's AST); on success the original program (fresh twin) and the renumbered one are run, entropy aligned, and transcripts and final variables must agree modulo the line map; a held snapshot must keep rendering the old text.",
    note="Trusted: the AST renderer and the 25-line model renumbering. A refused triple that the manual makes valid is counted, not reported (the property allows failing).",
    tech="deterministic simulation: seeded RENUM transactions with failing argument triples and live-snapshot fault, model renumbering + twin-runtime behavioural equivalence"),
  "C19": dict(cat="exploration", ref="DESIGN.md section 5 C19",
